@@ -298,10 +298,10 @@ def path_cover(lines, max_paths=None):
         if "init" in d:
             k = canon(d["init"])
             inits[k] = d["a"]
-            projs[k] = canon(d["pt"])
+            projs[k] = canon(d["pt"]) if "pt" in d else k
         elif "s" in d:
             s, a, t = canon(d["s"]), canon(d["a"]), canon(d["t"])
-            projs[t] = canon(d["pt"])
+            projs[t] = canon(d["pt"]) if "pt" in d else t
             m = succ.setdefault(s, {})
             if a not in m:
                 m[a] = t
